@@ -12,8 +12,9 @@ def rs_bytes(s: str) -> str:
 
 
 class RefEmitter:
-    def __init__(self, g: G.Grammar, gmod: str, user: str = "crate::user", nn=8, ne=6):
+    def __init__(self, g: G.Grammar, gmod: str, user: str = "crate::user", nn=8, ne=6, track_nodes=True):
         self.g = g
+        self.track_nodes = track_nodes
         self.gmod = gmod            # path of the generated module, e.g. crate::g
         self.user = user
         self.nn = nn
@@ -191,10 +192,16 @@ pub fn ref_{n}(cx: &mut Cx, inp: &str, pos: usize) -> Option<(usize, Val)> {{
         checks = ""
         for c in r.checks:
             checks += (f"    if !{self.user}::ref_{c.split('::')[-1]}(cx, inp, v) {{ cx.fail(q, K_CHECK); return None; }}\n")
-        inner = f"""    let me = cx.alloc(pos);
+        if self.track_nodes:
+            inner = f"""    let me = cx.alloc(pos);
     let q = match {body_fn}(cx, inp, {me}, pos) {{ Some(q) => q, None => return None }};
     if !cx.model_error {{ cx.nodes[me].end = q; }}
 {drop}    let v = Val {{ ty: {self.T(n)}, a: me, b: 0 }};
+{checks}    Some((q, v))"""
+        else:
+            # recogniser mode: no expected tree is built (nothing is compared against it)
+            inner = f"""    let q = match {body_fn}(cx, inp, NOFIELDS, pos) {{ Some(q) => q, None => return None }};
+    let v = Val {{ ty: {self.T(n)}, a: 0, b: 0 }};
 {checks}    Some((q, v))"""
         if r.leftrec:
             L = self.lr.index(n)
@@ -304,8 +311,9 @@ pub fn ref_{n}(cx: &mut Cx, inp: &str, pos: usize) -> Option<(usize, Val)> {{
         self.out = []
         for r in self.g.rules:
             self.rule(r)
-        for r in self.g.rules:
-            self.comparator(r)
+        if self.track_nodes:
+            for r in self.g.rules:
+                self.comparator(r)
         tids = "".join(f"pub const {self.T(n)}: u8 = {i};\n" for n, i in self.tid.items())
         if self.custom_ws:
             ws = ("fn ws(cx: &mut Cx, inp: &str, p: usize) -> Option<usize> {\n    let m = cx.mark(NOFIELDS);\n"
